@@ -129,7 +129,10 @@ static long event_begin(char cls, int *fail_errno) {
             char b[64];
             int l = snprintf(b, sizeof b, "#PAUSE\t%ld\n", k);
             if (log_fd >= 0) raw_write(log_fd, b, l);
-            syscall(SYS_kill, getpid(), SIGSTOP);
+            /* directed at the CALLING thread: it stops right here, on its way out of this system call. A
+             * process-directed SIGSTOP is handed to the main thread, and the group stop only begins once that
+             * thread has dequeued it - the calling thread could execute the event (and more) before it stops. */
+            syscall(SYS_tgkill, getpid(), (pid_t)syscall(SYS_gettid), SIGSTOP);
         } else if (mode == M_FAIL) {
             *fail_errno = (k == at1) ? errno1 : errno2;
         }
